@@ -49,14 +49,24 @@ class Engine:
 ENG=None
 class SR:  # symbolic real
     def __init__(s, e): s.e = e if isinstance(e, z3.ExprRef) else z3.RealVal(e)
-    def _o(a,b): return b.e if isinstance(b,SR) else z3.RealVal(b)
-    def __add__(a,b): return SR(a.e + a._o(b))
+    def _o(a,b):
+        if isinstance(b,SR): return b.e
+        return z3.RealVal(b)
+    def __add__(a,b):
+        if not isinstance(b,(SR,int,float)): return NotImplemented
+        return SR(a.e + a._o(b))
     __radd__=__add__
-    def __sub__(a,b): return SR(a.e - a._o(b))
+    def __sub__(a,b):
+        if not isinstance(b,(SR,int,float)): return NotImplemented
+        return SR(a.e - a._o(b))
     def __rsub__(a,b): return SR(a._o(b) - a.e)
-    def __mul__(a,b): return SR(a.e * a._o(b))
+    def __mul__(a,b):
+        if not isinstance(b,(SR,int,float)): return NotImplemented
+        return SR(a.e * a._o(b))
     __rmul__=__mul__
-    def __truediv__(a,b): return SR(a.e / a._o(b))
+    def __truediv__(a,b):
+        if not isinstance(b,(SR,int,float)): return NotImplemented
+        return SR(a.e / a._o(b))
     def __rtruediv__(a,b):
         if getattr(a,'recip',None) is not None and b==1.0: return a.recip
         return SR(a._o(b) / a.e)
